@@ -29,8 +29,10 @@
 // earlier than 300 ms after the latest instant the token can have been created
 // plus 1.25 L. Before and around the expiry both outcomes are allowed and are
 // recorded as classes (delivery before the expiry is the evidence that the
-// forged chunk is well-formed). A failing case is re-executed twice; only 3/3
-// counts, and not if the process itself measured a scheduling stall.
+// forged chunk is well-formed). A failing case is re-executed; only three
+// failing executions without a passing one count, and an execution during
+// which the process itself measured a scheduling stall (a goroutine that
+// sleeps 5 ms at a time woke up >= 100 ms late) counts for nothing.
 package c17
 
 import (
@@ -92,6 +94,8 @@ const (
 	waitBound = 25 * time.Second
 	// request timeout of the gopcua channel: generous, a loaded machine must not fake a verdict
 	requestTimeout = 30 * time.Second
+	// how long the fate of the two injected chunks is awaited after they were written
+	verdictWait = 10 * time.Second
 	// a measured scheduling stall of this size makes a failing verdict inconclusive
 	stallLimit = 100 * time.Millisecond
 
@@ -635,12 +639,20 @@ func runClient(c caseT) (o outcome) {
 		return
 	}
 
+	// Both chunks are on the wire, in this order. If neither has reached the
+	// pending request after verdictWait the case ends without a verdict (giving
+	// up can only miss a delivery, never invent one).
 	var r result
 	select {
 	case r = <-resCh:
-	case <-time.After(requestTimeout + 10*time.Second):
-		o.infra = "SendRequest did not return"
-		return
+	case <-time.After(verdictWait):
+		cancel()
+		select {
+		case r = <-resCh:
+		case <-time.After(waitBound):
+			o.infra = "SendRequest did not return"
+			return
+		}
 	}
 	tEnd := time.Now()
 	o.retained = hasToken(sc, c.ChannelID, victim.ID)
@@ -844,7 +856,7 @@ func runServer(c caseT) (o outcome) {
 	}
 
 	staleSeen, ctrlSeen, down := false, false, false
-	deadline := time.After(waitBound)
+	deadline := time.After(verdictWait)
 wait:
 	for !ctrlSeen {
 		select {
@@ -1011,20 +1023,30 @@ func record(c caseT, o outcome) {
 	}
 }
 
-// confirm re-executes a failing case twice; only 3/3 is a violation.
+// confirm re-executes a failing case: a violation needs three failing
+// executions during which the process measured no scheduling stall, and no
+// execution in which the stale chunk was rejected after the expiry. Executions
+// without a verdict (stalled, or the case did not get to the injection) do not
+// count either way; at most four re-executions.
 func confirm(c caseT, first outcome) (string, bool) {
-	if first.stall >= stallLimit {
-		return "", false
+	fails, msg := 0, ""
+	if first.stall < stallLimit {
+		fails, msg = 1, first.viol
 	}
-	msg := first.viol
-	for i := 0; i < 2; i++ {
+	for attempt := 0; attempt < 4 && fails < 3; attempt++ {
 		o := execute(c)
-		if o.viol == "" || o.stall >= stallLimit {
+		switch {
+		case o.viol != "" && o.stall < stallLimit:
+			fails++
+			msg = o.viol
+		case o.viol == "" && o.infra == "" && o.timing == "after" && o.stale == "rejected":
 			return "", false
 		}
-		msg = o.viol
 	}
-	return msg + " (3/3 executions)", true
+	if fails < 3 {
+		return "", false
+	}
+	return msg + " (3 failing executions, none passing)", true
 }
 
 func TestExpiredToken(t *testing.T) {
@@ -1049,6 +1071,10 @@ func TestExpiredToken(t *testing.T) {
 		rec.JournalDone("TestExpiredToken")
 		for i, c := range cases {
 			record(c, outs[i])
+			if o := outs[i]; o.infra != "" || o.control == "lost" || o.control == "down" {
+				b, _ := json.Marshal(c)
+				fmt.Printf("C17 no verdict: infra=%q timing=%s stale=%s control=%s stall=%v errors=%v case=%s\n", o.infra, o.timing, o.stale, o.control, o.stall, o.errs, b)
+			}
 		}
 		for i, c := range cases {
 			if outs[i].viol == "" {
@@ -1058,6 +1084,8 @@ func TestExpiredToken(t *testing.T) {
 			if !ok {
 				rec.Inconclusive()
 				rec.Class("unconfirmed-failure")
+				b, _ := json.Marshal(c)
+				fmt.Printf("C17 unconfirmed failure (stall %v): %s case=%s\n", outs[i].stall, outs[i].viol, b)
 				continue
 			}
 			rec.Fail(t, "TestExpiredToken", c, "%s", msg)
